@@ -1,4 +1,5 @@
 import GopatchModel.FileM
+import GopatchModel.Spec.LoaderSpec
 namespace Gopatch.C09
 open Gopatch
 
@@ -87,5 +88,34 @@ theorem loadOrder_keeps_flag_order (flags list : List String) (stdin : String) (
   cases flags with
   | nil => exact absurd rfl h
   | cons x xs => simp [loadOrder]
+
+/-! ### which patches a run consists of (loader.go, `loadPatches`) -/
+
+/-- **A list of patches is those patches given with `-p`, in the same order**: a `-P` file that holds paths, one per line
+(not empty, no carriage return at the end), loads exactly what the same paths load as `-p` flags - the same sources in the
+same order, or the same failure. -/
+theorem patches_from_a_list_are_the_flags_in_order (good : Load.Src → Bool) (paths : List Load.Bytes) (hne : paths ≠ [])
+    (hok : ∀ p ∈ paths, Load.PathOK p) (listPath : Load.Bytes) (hlp : listPath ≠ []) :
+    Load.loadPatches good [] listPath (some (Load.joinNl paths)) = Load.loadPatches good paths [] none :=
+  Load.list_is_flags good paths hne hok listPath hlp
+
+/-- **The run consists of the whole plan, in its order**: when loading succeeds, the programs handed to the per-file loop
+are the sources of the plan - standard input if neither `-p` nor `-P` is given, the `-p` files in command-line order, then
+the non-empty lines of the `-P` file - each of them loaded, none left out, none reordered. -/
+theorem the_run_is_the_whole_plan_in_order (good : Load.Src → Bool) (patches : List Load.Bytes) (listPath : Load.Bytes)
+    (listContent : Option Load.Bytes) (l : List Load.Src)
+    (h : Load.loadPatches good patches listPath listContent = .loaded l) :
+    l = (Load.plan patches listPath listContent).1 ∧ (∀ s ∈ l, good s = true) :=
+  let r := Load.loaded_is_the_whole_plan good patches listPath listContent l h
+  ⟨r.1, r.2.1⟩
+
+/-- `-p` files come before the files of the `-P` list -/
+theorem flags_come_before_the_list (patches : List Load.Bytes) (listPath c : Load.Bytes) (hlp : listPath ≠ []) :
+    ∃ fromList, (Load.plan patches listPath (some c)).1 = patches.map Load.Src.file ++ fromList :=
+  Load.flags_before_list patches listPath c hlp
+
+/-- non-vacuity: `-p a -P l` with `l` = "b\r\n\nc" loads a, b, c -/
+example : Load.loadPatches (fun _ => true) ["a".toUTF8.toList] "l".toUTF8.toList (some "b\r\n\nc".toUTF8.toList) =
+    .loaded [.file "a".toUTF8.toList, .file "b".toUTF8.toList, .file "c".toUTF8.toList] := by decide +kernel
 
 end Gopatch.C09
